@@ -175,7 +175,7 @@ impl Prop for C09 {
         if c.runner_drains.is_some() { out.push(WinCase { runner_drains: None, ..c.clone() }); out.push(WinCase { runner_drains: Some(vec![]), ..c.clone() }); }
         out
     }
-    fn rule(&self) -> String { "A case is one in-order stream (<= 40 items, bursts with equal timestamps, gaps <= slide, small gaps, jumps far beyond the width, repeated items) pushed into a real CSPARQLWindow with width, slide in 1..12 (independently; width < slide and width not a multiple of slide included) through the callback and - in 1 run in 12 - through the channel with a consumer thread under a seeded shuttle schedule. Oracle over the recorded history: every report is the item set of one aligned interval not after its trigger, triggers strictly increase, intervals are non-decreasing and none is reported twice; with gaps <= slide every non-empty closing interval is reported exactly once; channel and callback agree. Non-trivial = at least 2 reports; distinct = hash of (width, slide, arrivals). A fifth of the streams call flush() once or twice in mid-stream (its merged report is dropped; later reports must be unaffected).".into() }
+    fn rule(&self) -> String { "A case is one in-order stream (<= 40 items, bursts with equal timestamps, gaps <= slide, small gaps, jumps far beyond the width, repeated items) pushed into a real CSPARQLWindow with width, slide in 1..12 (independently; width < slide and width not a multiple of slide included) through the callback and - in 1 run in 12 - through the channel with a consumer thread under a seeded shuttle schedule. Oracle over the recorded history: every report is the item set of one aligned interval not after its trigger, triggers strictly increase, intervals are non-decreasing and none is reported twice; with gaps <= slide every non-empty closing interval is reported exactly once; channel and callback agree. Non-trivial = at least 2 reports; distinct = hash of (width, slide, arrivals). A fifth of the streams call flush() once or twice in mid-stream (its merged report is dropped; later reports must be unaffected). Half of the channel cases let the consumer hang up after 1-4 reports while a callback of the same window keeps counting; a fifth of the cases push the stream through WindowRunner as well (drain at random moments and after stop()).".into() }
     fn assumptions(&self) -> Vec<String> { vec!["the completeness clause is checked for intervals that contain at least one item: for width < slide the implementation never creates windows that hold no item, and whether an empty interval 'closes' is not observable from the statement".into()] }
     fn real_vs_stub(&self) -> serde_json::Value { serde_json::json!({"real": ["kolibrie::rsp::s2r::{CSPARQLWindow, Report, ContentContainer}"], "simulated": ["event source (timestamps, bursts, stalls, jumps)", "std mpsc channel + consumer thread (shuttle, seeded Random / PCT scheduler)", "hash keys"], "not_run": []}) }
 }
@@ -401,7 +401,7 @@ impl Prop for C10 {
         if c.op % 3 != 0 { out.push(SingleCase { op: 0, ..c.clone() }); }
         out
     }
-    fn rule(&self) -> String { "A case is one single-window continuous query (RSTREAM / ISTREAM / DSTREAM, width 1..6, slide 1..4, window block of 1-3 patterns, 0-3 N3 rules incl. chains and rules whose conclusions can also arrive as raw items) over an in-order stream with bursts and jumps, run through the real RSPEngine in single-thread mode and in multi-thread mode under 3 (quick) / 8 (thorough) seeded shuttle schedules (Random and PCT). A probe window with identical parameters yields the reported contents; per firing the expected emission is reference-BGP(block, content + reference closure) through a reference stream operator. Single-thread is compared firing by firing; multi-thread must emit a concatenation of permutations of the same per-firing sets, terminate and not deadlock. Non-trivial = at least 2 firings; distinct = hash of (events, block, rules, width, slide). Besides the probe-window oracle, a firing must be about the newest interval closed at its timestamp ([k-RANGE, k), k = floor(t/STEP)*STEP) whenever that interval holds items and was not the subject of the previous firing; gaps up to the width.".into() }
+    fn rule(&self) -> String { "A case is one single-window continuous query (RSTREAM / ISTREAM / DSTREAM, width 1..6, slide 1..4, window block of 1-3 patterns, 0-3 N3 rules incl. chains and rules whose conclusions can also arrive as raw items) over an in-order stream with bursts and jumps, run through the real RSPEngine in single-thread mode and in multi-thread mode under 3 (quick) / 8 (thorough) seeded shuttle schedules (Random and PCT). A probe window with identical parameters yields the reported contents; per firing the expected emission is reference-BGP(block, content + reference closure) through a reference stream operator. Single-thread is compared firing by firing; multi-thread must emit a concatenation of permutations of the same per-firing sets, terminate and not deadlock. Non-trivial = at least 2 firings; distinct = hash of (events, block, rules, width, slide). Besides the probe-window oracle, a firing must be about the newest interval closed at its timestamp ([k-RANGE, k), k = floor(t/STEP)*STEP) whenever that interval holds items and was not the subject of the previous firing; gaps up to the width. Half of the cases call stop() before dropping the engine (its flush firing is part of the expected sequence); a third let simulated wall-clock time pass between items.".into() }
     fn assumptions(&self) -> Vec<String> { vec!["row order inside one firing is hash order and not part of the property: sequences are compared per firing as multisets".into(), "the engine is dropped rather than stopped: stop() flushes an extra, non-window firing".into(), "window content is observed through a second real CSPARQLWindow (C09 checks the window itself)".into()] }
     fn real_vs_stub(&self) -> serde_json::Value { serde_json::json!({"real": ["RSPBuilder / RSPEngine (window processor, worker thread, R2S)", "SimpleR2R (materialize, execute_query)", "CSPARQLWindow / WindowRunner", "Reasoner (semi-naive)", "RSP-QL parser, optimizer, execution engine"], "simulated": ["std thread / Mutex / mpsc in rsp_engine.rs, s2r.rs, window_runner.rs (shuttle through cfg(kolibrie_verif) import switches)", "crossbeam channel (sim-crossbeam)", "rayon (sim-rayon, pool of one)", "event source", "hash keys"], "not_run": ["MQTT / HTTP sources"]}) }
     fn matches_known(&self, _c: &SingleCase, _v: &Violation, _m: &str) -> bool { false }
@@ -598,7 +598,7 @@ impl Prop for C11 {
         for (i, e) in c.events.iter().enumerate() { if e.advance_ms > 0 { let mut ev = c.events.clone(); ev[i].advance_ms = 0; out.push(MultiCase { events: ev, ..c.clone() }); } if e.gap > 0 { let mut ev = c.events.clone(); ev[i].gap = 0; out.push(MultiCase { events: ev, ..c.clone() }); } }
         out
     }
-    fn rule(&self) -> String { "A case is one continuous query over 2-3 windows on 2-3 streams (independent width/slide, blocks that share vocabulary across streams in half of the cases and use disjoint vocabularies in the other half, optional join variable, optional static block + static N-Triples) under Wait / Steal / Timeout{Steal|Drop}, run in single-thread mode and in multi-thread mode (worker per window + coordinator) under seeded shuttle schedules with the simulated clock advanced between pushes so coordinator time-outs fire before, between and after the windows of a cycle. One probe window per engine window records what each window reported. Oracle (soundness only): every emitted row, projected onto a window block's variables, is an answer of that block over some content that window itself reported; the static part is an answer over the static data; all threads terminate. Non-trivial = at least one row emitted; distinct = hash of (events, windows). A third of the cases run the cross-window (SDS+) coordinator (Incremental / Naive) with rules whose conclusions no block can see - there a block part must be an answer over what its own window reported so far taken together; static data may be empty or loaded in mid-run; half of the cases name the streams with full http / host:port / URN IRIs that share their last segment.".into() }
+    fn rule(&self) -> String { "A case is one continuous query over 2-3 windows on 2-3 streams (independent width/slide, blocks that share vocabulary across streams in half of the cases and use disjoint vocabularies in the other half, optional join variable, optional static block + static N-Triples) under Wait / Steal / Timeout{Steal|Drop}, run in single-thread mode and in multi-thread mode (worker per window + coordinator) under seeded shuttle schedules with the simulated clock advanced between pushes so coordinator time-outs fire before, between and after the windows of a cycle. One probe window per engine window records what each window reported. Oracle (soundness only): every emitted row, projected onto a window block's variables, is an answer of that block over some content that window itself reported; the static part is an answer over the static data; all threads terminate. Non-trivial = at least one row emitted; distinct = hash of (events, windows). A third of the cases run the cross-window (SDS+) coordinator (Incremental / Naive) with rules whose conclusions no block can see - there a block part must be an answer over what its own window reported so far taken together; static data may be empty or loaded in mid-run; half of the cases name the streams with full http / host:port / URN IRIs that share their last segment. A third of the plain-path cases give the R2R operator a rule that can never fire.".into() }
     fn assumptions(&self) -> Vec<String> { vec!["soundness only: no completeness, timing or 'which cycle' requirement, so no schedule can make the oracle alarm spuriously".into(), "in multi-thread mode a row may be explained by any content the window reported during the run (rows arrive asynchronously)".into(), "R2R rules are not loaded in C11; in cross-window mode only rules whose conclusions no block can see are loaded, and there a block part is judged against everything its own window reported so far (expiry-based liveness of the SDS+ path), not against a single report".into()] }
     fn real_vs_stub(&self) -> serde_json::Value { serde_json::json!({"real": ["RSPEngine (window processors, coordinator, join_window_results, natural_join, emit_results, static store)", "SimpleR2R", "CSPARQLWindow"], "simulated": ["std thread / Mutex / mpsc (shuttle)", "crossbeam channel incl. recv_timeout on the simulated clock", "Instant (simulated clock)", "event source", "hash keys"], "not_run": ["cross-window SDS+ reasoning path (C12 drives incremental_sds_plus directly)"]}) }
     fn matches_known(&self, c: &MultiCase, v: &Violation, m: &str) -> bool { match m { "foreign-window-items-shared-vocabulary" => v.class == "foreign-window-items" && c.shared_vocab && c.cross_rules == 0, _ => false } }
